@@ -153,6 +153,24 @@ TopicsView(cl) ==
   ELSE IF errs = U THEN BadGateway
   ELSE View(200, errs # {}, [topics |-> UNION {each(u) : u \in U \ errs}])
 
+(* ---- /api/topics?inactive=true ---------------------------------------- *)
+\* the channels a lookupd has registered for topic t: those of the nsqd it lists for t (t3: registered by nsqd that are gone)
+LChans(cl, l, t) ==
+  UNION {DOMAIN cl.nsqd[n].topics[t].channels :
+           n \in {m \in (DOMAIN cl.lookupd[l].nodes) \cap cl.N : t \in cl.lookupd[l].nodes[m].topics /\ t \in DOMAIN cl.nsqd[m].topics}}
+  \cup (IF t = "t3" /\ t \in cl.lookupd[l].topics THEN {"c1", "c2"} ELSE {})
+
+\* topics no nsqlookupd has a producer for, each with the UNION of the channels the nsqlookupds know for it
+InactiveView(cl) ==
+  LET tv == TopicsView(cl) IN
+  IF tv.st # 200 THEN tv
+  ELSE IF cl.mode # "lookupd" THEN View(200, tv.warn, [topics |-> EmptyF])
+  ELSE IF ShapeOnPath(cl, cl.L, "lookup") THEN AliveOnly
+  ELSE LET okL == {l \in cl.L : Ok(cl, l)}
+           prods(t) == UNION {LookupProds(cl, l, t) : l \in {k \in okL : t \in cl.lookupd[k].topics}}
+           inact == {t \in tv.v.topics : prods(t) = {}} IN
+       View(200, tv.warn, [topics |-> [t \in inact |-> UNION {LChans(cl, l, t) : l \in okL}]])
+
 (* ---- /api/topics/:t --------------------------------------------------- *)
 ChanSum(cl, S, t, c) ==      \* per-field sums of channel c of topic t over the nsqd in S that have it
   LET H == {n \in S : HasChan(cl, n, t, c)}
@@ -257,6 +275,7 @@ CounterView(cl) ==
 
 Views(cl) ==
   [topics |-> TopicsView(cl),
+   inactive |-> InactiveView(cl),
    topic |-> [t \in QTopics |-> TopicView(cl, t)],
    channel |-> [t \in {"t1", "t2"} |-> [c \in QChans |-> ChannelView(cl, t, c)]],
    nodes |-> NodesView(cl),
